@@ -19,7 +19,7 @@ OutFile == Env("GEN_OUT", "/dev/null")
 Sigma == {<<"a", "b", "c">>[i] : i \in 1..NSigma}
 Edges(Q) == {<<p, a, q>> : p \in Q, a \in Sigma, q \in Q}
 Nfas(Q, m) == {[start |-> S, fin |-> F, delta |-> D] :
-                 S \in SUBSET Q, F \in SUBSET Q, D \in UNION {kSubset(k, Edges(Q)) : k \in 0..m}}
+                 S \in SUBSET Q, F \in SUBSET Q, D \in UNION {kSubset(k, Edges(Q)) : k \in 0..(IF m < Cardinality(Edges(Q)) THEN m ELSE Cardinality(Edges(Q)))}}
 Cases ==
   LET as == SetToSeq(Nfas(0..(NQ - 1), MaxE))
       mine == {i \in 1..Len(as) : i % NShards = Shard}
